@@ -697,7 +697,8 @@ func (f *File) CopySampleData(w io.Writer, rs io.ReadSeeker, trak *TrakBox,
 				for {
 					end := min(workLen, workPos+nrLeft)
 					n, err := rs.Read(workSpace[workPos:end])
-					if err != nil {
+					if err != nil && !(err == io.EOF && n == nrLeft) {
+						// A reader may return the last bytes together with io.EOF (io.Reader contract)
 						return err
 					}
 					nrLeft -= n
